@@ -369,6 +369,7 @@ theorem released_fires_iff (s s' : CSt) (e : CEv) (hs : cstep s e = some s') (a 
         | access => rw [hop] at hgo; simp only at hgo; split at hgo <;> (rw [h0] at hgo; cases hgo)
         | wait => rw [hop] at hgo; simp only at hgo; rw [h0] at hgo; cases hgo
         | resolve => rw [hop] at hgo; simp only at hgo; rw [h0] at hgo; cases hgo
+        | promise => rw [hop] at hgo; simp only at hgo; rw [h0] at hgo; cases hgo
         | rwr cb =>
           rw [hop] at hgo; simp only at hgo
           by_cases hw : c.wres = true
@@ -611,6 +612,7 @@ theorem cstep_flip_base (s s' : CSt) (e : CEv) (hi : CInv s) (hs : cstep s e = s
       simp only [hc] at hs
       split at hs <;> try simp at hs
       exact same _ hs.2.symm rfl
+  | probeProm a h v e => exact (same _ (probeProm_step s s' a h v e hs).1 rfl).elim
   | probe v e =>
     exfalso
     simp only [cstep] at hs; split at hs <;> simp at hs; exact same _ hs.symm rfl
@@ -650,7 +652,7 @@ theorem wait_keeps_alive (es : List CEv) (s : CSt) (h : cmodel.run cmodel.init e
 
 /-! ## the model does something: Access invalidated during its callback, re-invoked with the replacement -/
 
-def exAccess : List CEv := [.base (.cfg false 1 true), .inv 0 .access, .base (.addRefCS 0), .base (.enter 0 0),
+def exAccess : List CEv := [.base (.cfg false 1 1), .inv 0 .access, .base (.addRefCS 0), .base (.enter 0 0),
   .base (.leave 0 0 1 true 0), .base (.store 0), .base (.cb (.refcb 0 false true 1 0)), .base (.done 0),
   .snap 0, .cbin 0 0 1,
   .base (.envReleased 0), .base (.relRun 0), .base (.cb (.refcb 0 false false 0 0)), .watch 0,
